@@ -114,6 +114,21 @@ def byteSwap1 (bs : Bytes) : Bytes := swapLoop bs.length bs.length 0 (bs.drop (G
 def readBytes (n : Nat) (s : Bytes) : Option (Bytes × Bytes) :=
   if s.length < n then none else some (s.take n, s.drop n)
 
+/-- the same function without walking the whole remaining stream for every read (the compiled driver uses this
+form: `@[csimp]` replaces `readBytes` by it on the strength of the equation proved here, no axiom involved) -/
+def readBytesFast (n : Nat) (s : Bytes) : Option (Bytes × Bytes) :=
+  let hd := s.take n
+  if hd.length < n then none else some (hd, s.drop n)
+
+@[csimp] theorem readBytes_eq_fast : @readBytes = @readBytesFast := by
+  funext n s
+  simp only [readBytes, readBytesFast, List.length_take]
+  by_cases h : s.length < n
+  · have : min n s.length < n := by omega
+    simp [h, this]
+  · have : ¬ min n s.length < n := by omega
+    simp [h, this]
+
 def zeros (n : Nat) : Bytes := List.replicate n 0
 
 /-! ### ArithmeticHandler -/
